@@ -46,3 +46,24 @@ def hex_labels_are_ring_and_position_and_read_back(pitch: float, cornersUp: bool
             lab3 = g.getLabel((i, j, 2))
             assert grids.locatorLabelToIndices(lab3) == (ring, pos, 2)
     assert n == 127
+
+
+# ----------------------------------------------------------------------------- widened range (assumption review)
+@lemma
+def index_labels_read_back_for_negative_indices_too():
+    """the lemma above enumerates NON-NEGATIVE indices only (negative ones were finding F11, repaired since): labels of
+    cells with negative i / j / k - every Cartesian grid through the centre has them - read back and stay distinct"""
+    seen = set()
+    for i in range(-13, 14):
+        for j in range(-13, 14):
+            lab = CartesianGrid.getLabel((i, j))
+            assert grids.locatorLabelToIndices(lab) == (i, j, None), "label -> indices inverts indices -> label"
+            assert lab not in seen, "distinct cells have distinct labels"
+            seen.add(lab)
+    for i in (-120, -100, -7, -1, 0, 5, 999, 1000):
+        for j in (-1000, -99, -1, 0, 12):
+            for k in (-100, -3, -1, 0, 2, 100):
+                lab = CartesianGrid.getLabel((i, j, k))
+                assert grids.locatorLabelToIndices(lab) == (i, j, k)
+                assert lab not in seen
+                seen.add(lab)
